@@ -24,7 +24,7 @@ def run(ctx: Ctx):
                           1.0, 1.0, "partition")
     ctx.floor("R-C02-1", 2, "objectives (one per solver branch)")
     nbk.check_candidates(ctx, {"c2n": "R-C02-2", "filter-op": "R-C02-2", "threshold": "R-C02-2", "filter-extra": "R-C02-2",
-                               "cost-domain": "R-C02-3", "cost-term": "R-C02-3", "final-normalise": "R-C02-3",
+                               "cost-domain": "R-C02-3", "cost-term": "R-C02-3", "cost-closed": "R-C02-3", "final-normalise": "R-C02-3",
                                "matrix-domain": "R-C02-4", "matrix-alloc": "R-C02-4", "matrix-cover": "R-C02-4",
                                "source": "R-C02-5", "sizes-with-null": "R-C02-5", "append": "R-C02-6", "final-return": "R-C02-6"})
     nbk.check_odometer(ctx, "R-C02-5")
